@@ -188,8 +188,8 @@ def _map_frozen(cfg):
     mm = maker(cfg)().dut.wb_bus.memory_map
     try:
         mm.add_resource(Extra(), name=("extra",), size=1)
-    except ValueError:
-        return True
+    except ValueError as e:
+        return "frozen" in str(e)       # (the map is also FULL: a refusal for lack of space proves nothing)
     return False
 
 
